@@ -202,14 +202,19 @@ Definition case_yield (which interval : N) (xs : list Z) : list Z :=
    the number of suspensions it took, budget(), total_yields()) or one YieldPoint (a = 1, b = yield_interval: 1 checkpoint,
    2 yield_now, 3 reset; after every operation its suspensions and operation_count()) *)
 Definition fy_reset (init : N) (y : fy) : fy := mkFY init 0.
+Definition fy_apply (init : N) (y : fy) (o : Z) : fy :=
+  if (o =? 1)%Z then fy_yield init y else if (o =? 2)%Z then fy_force init y else fy_reset init y.
+Definition is_yield_op (o : Z) : bool := (o =? 1)%Z || (o =? 2)%Z.
 Fixpoint fy_hist (init : N) (y : fy) (ops : list Z) : list Z :=
   match ops with
   | [] => []
   | o :: r =>
-      let '(y', susp) := if (o =? 1)%Z then (fy_yield init y, 1%Z) else if (o =? 2)%Z then (fy_force init y, 1%Z)
-                         else (fy_reset init y, 0%Z) in
-      susp :: Z.of_N (fy_budget y') :: Z.of_N (fy_total y') :: fy_hist init y' r
+      let y' := fy_apply init y o in
+      (if is_yield_op o then 1%Z else 0%Z) :: Z.of_N (fy_budget y') :: Z.of_N (fy_total y') :: fy_hist init y' r
   end.
+(* the yield operations since the last reset *)
+Fixpoint yields_since (n : N) (ops : list Z) : N :=
+  match ops with [] => n | o :: r => if is_yield_op o then yields_since (n + 1) r else yields_since 0 r end.
 Fixpoint yp_hist (k : N) (p : yp) (ops : list Z) : list Z :=
   match ops with
   | [] => []
